@@ -24,4 +24,8 @@ theorem ctor_asserts : CTOR_ASSERTS_OK = 1 := by decide
 /-- new chunks are requested with `CHUNK_ALIGN.max(MIN_ALIGN).max(layout.align())` -/
 theorem new_chunk_align : NEW_CHUNK_ALIGN_MAX3 = 1 := by decide
 
+/-- every store of a chunk's bump finger goes through `ChunkFooter::set_ptr`, which never writes
+to the shared static empty chunk -/
+theorem static_store_guarded : STATIC_STORE_GUARDED = 1 := by decide
+
 end Bump.GenFacts
